@@ -107,6 +107,12 @@ type Node struct {
 	Reorgs    int
 	MinForkAt uint64 // lowest fork point so far (MaxUint64 if none)
 
+	// ViewLag is set by the simulator before it lets the node serve: the
+	// request is answered by a replica that has not seen the newest ViewLag
+	// blocks yet (unknown block => null, logs only up to its own head,
+	// "latest" = its own head).
+	ViewLag int
+
 	// Quiet: serve without recording anything (no request log, no announced
 	// heads). With a frozen chain, serving is then read-only and may be
 	// called from many goroutines at once without any lock (free-running
@@ -318,11 +324,14 @@ func (n *Node) serveOne(url string, r Request) Reply {
 		}
 		rec.Block = s
 		if s == "latest" {
-			return n.Head(), true, nil
+			return n.canon[n.viewLen()-1], true, nil
 		}
 		num, err := parseQuantity(s)
 		if err != nil {
 			return nil, false, err
+		}
+		if num >= uint64(n.viewLen()) {
+			return nil, false, nil
 		}
 		return n.Canonical(num), false, nil
 	}
@@ -404,7 +413,7 @@ func (n *Node) serveOne(url string, r Request) Reply {
 		var sb strings.Builder
 		sb.WriteString("[")
 		first := true
-		for num := from; num <= to && num < uint64(len(n.canon)); num++ {
+		for num := from; num <= to && num < uint64(n.viewLen()); num++ {
 			b := n.canon[num]
 			rec.Served = append(rec.Served, hex.EncodeToString(b.Hash))
 			for ti := range b.Txs {
@@ -569,6 +578,18 @@ func (n *Node) blockJSON(b *Block, full bool) json.RawMessage {
 	}
 	sb.WriteString("]}")
 	return json.RawMessage(sb.String())
+}
+
+// viewLen is the number of blocks the answering replica knows.
+func (n *Node) viewLen() int {
+	l := len(n.canon) - n.ViewLag
+	if n.ViewLag <= 0 {
+		return len(n.canon)
+	}
+	if l < 1 {
+		l = 1
+	}
+	return l
 }
 
 func (n *Node) announce(b *Block) {
